@@ -20,14 +20,16 @@ from translator.pyexpr import TranslateError
 
 HERE = os.path.dirname(os.path.dirname(os.path.abspath(__file__)))
 
-THEOREM_FILES = ["C17_splits.v", "C17_proj.v", "C17_history.v", "C17_history_damage.v"]
+THEOREM_FILES = ["C17_splits.v", "C17_proj.v", "C17_scale.v", "C17_history.v", "C17_history_damage.v"]
 # which concrete-failure key prefixes "explain" a broken theorem file
 RELATED = {
     "C17_splits.v": ("partition:", "law:"),
     "C17_proj.v": ("eig:2d", "nonfinite:2d", "eig:3d:generic", "proj:2d"),
+    "C17_scale.v": ("scale-invariance:",),
     "C17_history.v": ("history-", "damage-decreases:BoundConstrain", "damage-without-load", "damage-imposed-lost:BoundConstrain"),
     "C17_history_damage.v": ("damage-decreases:HistoryDamage", "damage-not-stored:HistoryDamage", "damage-imposed-lost:HistoryDamage"),
-    "Gen_Splits.v": ("history-rule-mismatch", "history-decreases", "damage-imposed-lost", "damage-decreases"),
+    # the translator is fail-closed on any unrecognised statement: any NEW concrete failing input explains it
+    "Gen_Splits.v": ("",),
 }
 
 REPLAY_SPLIT = r'''
@@ -72,6 +74,17 @@ if fin:
     print("|cP + cM - C| / |C| =", errC, "(expected <= 1e-9);  psi+ + psi- =", float(pP + pM), " eps.C.eps/2 =", float(0.5 * x @ sig))
     if kind == "partition":
         bad = errC > 1e-9 or np.linalg.norm(SP + SM - sig) > 1e-9 * np.linalg.norm(C) * np.linalg.norm(x) or abs(pP + pM - 0.5 * x @ sig) > 1e-9 * np.linalg.norm(C) * (x @ x)
+if kind == "scale-invariance" and fin:
+    sc = D["extra"]["scale"]
+    SP2, _ = pfm.Calc_Sigma_e_pg(FeArray.asfearray(eps.copy() * sc)); pP2, _ = pfm.Calc_psi_e_pg(FeArray.asfearray(eps.copy() * sc))
+    SP2, pP2 = np.asarray(SP2)[0, gp], np.asarray(pP2)[0, gp]
+    nC, nx = np.linalg.norm(C), np.linalg.norm(x)
+    hs = np.linalg.norm(SP2 - sc * SP) if np.isfinite(SP2).all() else np.inf
+    hp = abs(pP2 - sc * sc * pP) if np.isfinite(pP2) else np.inf
+    print("s =", sc, " |eps| =", nx, " |s eps| =", sc * nx)
+    print("Sigma+(eps) * s =", (sc * SP).tolist()); print("Sigma+(s eps)   =", SP2.tolist())
+    print("|Sigma+(s eps) - s Sigma+(eps)| / (|C||s eps|) =", hs / (nC * nx * sc), " |psi+(s eps) - s^2 psi+(eps)| / (|C||s eps|^2) =", hp / (nC * nx * nx * sc * sc), "(expected <= 1e-9)")
+    bad = not (max(hs / (nC * nx * sc), hp / (nC * nx * nx * sc * sc)) <= 1e-9)
 fam = "He" if split == "He" else "stress" if (split in ("Stress", "Zhang") or "Stress" in split) else "strain" if (split == "Miehe" or "Strain" in split) else "none"
 if fam != "none":
     T = C if fam == "stress" else mat.Get_sqrt_C_S()[0] if fam == "He" else np.eye(n)
@@ -109,7 +122,7 @@ inp = json.dumps({"seed": 1, "tier": "quick", "only": {"split": "none"}})
 sys.path.insert(0, %(here)r)
 from corr import C17_splits as H
 import random
-f = H.Fail(); st = dict(cases=0, by_class={}, max_partition_err=0.0, max_eig_err={}, models=0)
+f = H.Fail(); st = dict(cases=0, by_class={}, by_decade={}, max_partition_err=0.0, max_eig_err={}, max_homogeneity_err=0.0, models=0)
 H.check_laws(f, st, H.materials(random.Random(%(seed)d)))
 for k, v in f.items.items(): print(k, v["what"])
 sys.exit(1 if %(key)r in f.items else 0)
@@ -188,6 +201,8 @@ def run(ctx):
         ctx.traces = ctx.cases
         ctx.cov["strain_state_classes"] = st["by_class"]
         ctx.cov["models_checked"] = st["models"]
+        ctx.cov["strain_magnitude_decades"] = st["by_decade"]
+        ctx.cov["max_homogeneity_error_rel"] = st["max_homogeneity_err"]
         ctx.cov["max_partition_error_rel"] = st["max_partition_err"]
         ctx.cov["max_eigen_error_rel_by_class"] = st["max_eig_err"]
         ctx.cov["failing_case_counts"] = R["counts"]
@@ -203,7 +218,7 @@ def run(ctx):
             else:
                 rp = REPLAY_SPLIT % dict(data=json.dumps(d), classes=d.get("classes"))
             ctx.violation(f["key"], f["what"] + " [%d cases]" % R["counts"].get(f["key"], 1),
-                          {"replay_py": rp, "input": {k: d.get(k) for k in ("matname", "split", "regu", "classes", "gp", "eps_elem")}},
+                          {"replay_py": rp, "input": {k: d.get(k) for k in ("matname", "split", "regu", "classes", "gp", "eps_elem", "extra")}},
                           found_input=d.get("kind") not in ("hook",))
         ctx.sample({"splits_stats": {k: st[k] for k in ("cases", "models", "max_partition_err")}})
     inp2 = json.dumps({"seed": ctx.rng.randrange(1 << 30), "tier": ctx.tier})
@@ -231,9 +246,12 @@ def run(ctx):
         if st["runs"]:
             ctx.sample({"history_run": st["runs"][0]})
     # ---- 4. broken theorem files without a concrete failing input -----------------------
+    from vlib import common as _common
+    known = _common.load_known()
+    new_keys = [k for k in keys if (ctx.pid, k) not in known]      # a listed finding explains nothing new
     for f, lg in broken.items():
         rel = RELATED.get(f, ())
-        if any(k.startswith(p) for k in keys for p in rel):
+        if any(k.startswith(p) for k in new_keys for p in rel):
             ctx.log("%s does not compile; explained by concrete failing inputs" % f)
             continue
         ctx.violation("coq:" + f, "%s no longer checks against the model regenerated from the source (no concrete failing input found): %s"
@@ -241,6 +259,7 @@ def run(ctx):
                       {"replay_py": REPLAY_COQ % dict(file=f, log=lg[-1200:]), "obligation": f}, found_input=False)
     ctx.assumptions += [
         "Theorems are over exact reals; floating-point behaviour of the closed-form eigen routines is covered by the correspondence runs only.",
+        "Scale invariance is proved for Rp/Rm, the 2-D eigenvalues/projectors, the inputs of the 3-D case selection (g_neq_0 test, Lode argument) and the Sylvester formulas; invariance of the assembled projP is sampled over 14 decades of magnitude with exact power-of-two scalings.",
         "3-D: only the Sylvester projector formulas for three distinct roots are proved (proj3d_distinct_partial); the arccos root formula, its degenerate branches and the assembly of projP from (eigenvalues, eigenprojectors) are checked by correspondence, not proved.",
         "Hypotheses of the partition theorems about the material law (C = lamb IxI + 2 mu I, bulk, C^T S C = C, inv_sqrtC sqrtC = I, Stress-split compliance coefficients) are checked numerically on the implementation at 1e-10.",
         "Det/Trace of 2x2 and Project_vector_to_matrix are modelled by hand (checked by the eigen correspondence).",
